@@ -70,14 +70,18 @@ type c12CmdSpec struct {
 }
 
 type c12CaseSpec struct {
-	Idx    int64        `json:"idx"`
-	Queues int          `json:"queues"`
-	Pool   int          `json:"pool"`
-	Cmds   []c12CmdSpec `json:"cmds"`
+	// BlankIDs: the last two targets of the pool have lost their executor (executor id blank) or their agent
+	// (both ids blank), as HandleExecutorFailed / HandleAgentFailed leave a task: a MESSAGE for them is
+	// refused by the sender, nothing can come back, and the result must say so for exactly these targets
+	BlankIDs bool         `json:"blank_ids,omitempty"`
+	Idx      int64        `json:"idx"`
+	Queues   int          `json:"queues"`
+	Pool     int          `json:"pool"`
+	Cmds     []c12CmdSpec `json:"cmds"`
 }
 
 func c12GenCase(r *rand.Rand, idx int64) *c12CaseSpec {
-	cs := &c12CaseSpec{Idx: idx, Pool: c12PoolSize}
+	cs := &c12CaseSpec{Idx: idx, Pool: c12PoolSize, BlankIDs: idx%4 == 0}
 	switch x := r.Intn(10); {
 	case x < 4:
 		cs.Queues = 1
@@ -150,6 +154,16 @@ func c12GenCase(r *rand.Rand, idx int64) *c12CaseSpec {
 				}
 			}
 		}
+		if cs.BlankIDs {
+			for x := range c.Targets {
+				if c.Targets[x].T >= c12PoolSize-2 {
+					c.Targets[x].Beh = "senderr"
+					if !strings.HasPrefix(c.Targets[x].Shared, c12SendErrTag) {
+						c.Targets[x].Shared = ""
+					}
+				}
+			}
+		}
 		cs.Cmds = append(cs.Cmds, c)
 	}
 	// second pass: concrete reply actions (foreign ids need the other commands)
@@ -172,6 +186,9 @@ func c12GenCase(r *rand.Rand, idx int64) *c12CaseSpec {
 				a.ErrText = ts.Shared
 				ts.Actions = []c12ActionSpec{a}
 			case "senderr":
+				if cs.BlankIDs && ts.T >= c12PoolSize-2 {
+					break // no executor to answer
+				}
 				if r.Intn(3) == 0 { // the message did get through although the send reported failure
 					ts.Actions = []c12ActionSpec{own(r.Intn(20), false)}
 				}
@@ -774,6 +791,12 @@ func c12RunCase(spec *c12CaseSpec, tag string) *c12CaseRun {
 		t.AgentId.Value = fmt.Sprintf("agent-%d", p%5)
 		t.ExecutorId.Value = fmt.Sprintf("exec-%d", p)
 		t.TaskId.Value = fmt.Sprintf("%s-task-%d", tag, p)
+		if spec.BlankIDs && p == spec.Pool-2 {
+			t.ExecutorId.Value = ""
+		}
+		if spec.BlankIDs && p == spec.Pool-1 {
+			t.AgentId.Value, t.ExecutorId.Value = "", ""
+		}
 		cr.pool = append(cr.pool, t)
 	}
 	cr.servent = cc.NewServent(cr.send)
@@ -810,6 +833,9 @@ func c12RunCase(spec *c12CaseSpec, tag string) *c12CaseRun {
 	}
 	var ut []int
 	for t := range used {
+		if spec.BlankIDs && t >= spec.Pool-2 {
+			continue // a probe is answered by an executor
+		}
 		ut = append(ut, t)
 	}
 	sort.Ints(ut)
@@ -975,6 +1001,9 @@ func c12Judge(c *vlib.Ctx, cr *c12CaseRun, caseID int64, boundOnly bool) (boundE
 			}
 			for _, st := range cm.ts {
 				c.Count("beh_"+st.spec.Beh, 1)
+				if st.tgt.ExecutorId.Value == "" {
+					c.Count("targets_without_executor_id", 1)
+				}
 				c.Count("sends", int64(st.sends))
 				if st.sends > 1 {
 					c.Count("duplicate_sends", int64(st.sends-1))
